@@ -90,7 +90,7 @@ def build_feed(rng, n_lines, malformed, limit_parsing=False):
             lines.append(("good", enc.line(fr), a, cs))
         elif roll < 0.85:
             # one in five comes as DF18 (TIS-B / ADS-R carry the address in the same place)
-            fr = enc.long_frame(18 if rng.random() < 0.2 else 17, rng.randrange(8), a, enc.me_unique(rng.choice([0, 23, 25, 27]), counter))
+            fr = enc.long_frame(18 if (rng.random() < 0.2 and not limit_parsing) else 17, rng.randrange(8), a, enc.me_unique(rng.choice([0, 23, 25, 27]), counter))
             lines.append(("good", enc.line(fr), a, None))
         elif roll < 0.92:
             # well-formed lines of other formats: processed, but nothing to count
@@ -103,13 +103,13 @@ def build_feed(rng, n_lines, malformed, limit_parsing=False):
             enc.setbits(m, 1, 5, rng.choice([16, 20, 21, 24, 19, 19, 27, 31]))
             lines.append(("other", enc.line(bytes(m)), None, None))
         if bad and rng.random() < 0.25:
-            lines.append(("bad", bad[n_bad % len(bad)] if len(bad) > 4 else rng.choice(bad), None, None))
+            lines.append(("bad", bad[n_bad % len(bad)] if len(bad) >= 3 else rng.choice(bad), None, None))
             n_bad += 1
     if bad and not any(k == "bad" for k, *_ in lines):
         lines.insert(len(lines) // 2, ("bad", bad[0], None, None))
         n_bad += 1
     # kinds with many variants: every variant is sent at least once
-    while bad and len(bad) > 4 and n_bad < len(bad):
+    while bad and len(bad) >= 3 and n_bad < len(bad):
         lines.append(("bad", bad[n_bad], None, None))
         n_bad += 1
     # every malformed line is followed by sentinels: end with good lines
@@ -215,7 +215,8 @@ def framed(d):
 
 
 def check_1090(col, binpath, rng, tag, seg_kind, delay_kind, malformed, scratch):
-    lines, _ = build_feed(rng, rng.randint(20, 90), malformed)
+    slow = seg_kind == "per_byte" and delay_kind == "gt_timeout"  # a pause behind every byte: keep the feed short
+    lines, _ = build_feed(rng, 3 if slow else rng.randint(20, 90), malformed)
     steps, midline = segment(rng, lines, seg_kind, delay_kind)
     # every third scenario the server goes away right behind the last line: what was sent before
     # the close still has to come out (nothing about 1090's own fate after a disconnect is judged)
@@ -373,7 +374,8 @@ def compare_rows(col, rows, expect, cls, inp, phase):
 def check_radar(col, binpath, rng, tag, seg_kind, delay_kind, malformed, disconnect, scratch, limit=None):
     if limit is None:
         limit = rng.random() < 0.25
-    lines, expect = build_feed(rng, rng.randint(20, 70), malformed)
+    slow = seg_kind == "per_byte" and delay_kind == "gt_timeout"
+    lines, expect = build_feed(rng, 3 if slow else rng.randint(20, 70), malformed, limit_parsing=limit)
     steps, midline = segment(rng, lines, seg_kind, delay_kind)
     opts = ["--filter-time", "100000"]
     if limit:
@@ -527,9 +529,11 @@ def main(a, lcol, col, run_all, scratch, START):
             combos.append((sk, "gt_timeout", m))
     for sk in SEGMENTATIONS:
         for dk in DELAYS:
-            if sk == "per_byte" and dk == "gt_timeout":
-                continue
             combos.append((sk, dk, "none"))
+    # every byte in its own segment with a pause beyond the read timeout behind it: whatever is not
+    # valid text must not be dropped byte by byte so that the rest passes for a frame
+    for m in ("invalid_utf8", "non_ascii"):
+        combos.append(("per_byte", "gt_timeout", m))
     extra = 1500 if thorough else 0
     for _ in range(extra):
         combos.append((rng0.choice(SEGMENTATIONS), rng0.choice(list(DELAYS)), rng0.choice(malformed_kinds)))
